@@ -321,7 +321,7 @@ def collect(rep, pid, tier, replay_file=None):
 
     if pid == "C02" and not replay_file:
         # plus every document of the document family that declares an object class
-        doc_states, dmeta = df.stage1(tier)
+        doc_states, dmeta = df.stage1(tier, pid="ser")
         more = [s for s in doc_states if '"object"' in json.dumps(s["doc"]) and s["parse"] == "ok"]
         if tier == "quick":
             more = [s for s in more if s.get("src") != "sim"] + [s for s in more if s.get("src") == "sim"][:1500]
@@ -353,7 +353,7 @@ def collect(rep, pid, tier, replay_file=None):
     else:   # C09
         docs = [files_of(s) for s in states if not s["cyclic"] and not s["uns"]]
         # plus documents of the document family (composition keywords with equally titled objects)
-        doc_states, _ = df.stage1(tier)
+        doc_states, _ = df.stage1(tier, pid="doc")
         picked = [s for s in doc_states if s.get("src") == "seed"][:1500] + \
                  [s for s in doc_states if any(k in json.dumps(s["doc"]) for k in ('"anyOf"', '"oneOf"', '"allOf"'))
                   and '"object"' in json.dumps(s["doc"])][:(1500 if tier == "quick" else 20000)]
